@@ -5,7 +5,7 @@ P=$1; ID=$2; TIER=${3:-quick}
 cp /verif/evidence/$ID.json /tmp/evid.$ID.$$ 2>/dev/null
 git -C /repo apply "$P" || { echo "patch does not apply"; exit 3; }
 cd /verif && ./check $ID --tier $TIER > /tmp/mut.out 2>&1; rc=$?
-git -C /repo checkout -- .
+git -C /repo checkout -- . ; git -C /repo clean -fdq -- src tests
 [ -f /tmp/evid.$ID.$$ ] && mv /tmp/evid.$ID.$$ /verif/evidence/$ID.json
 grep -E "^(VIOLATION|SUMMARY|HARNESS|KNOWN)" /tmp/mut.out | cut -c1-300 | head -8
 echo "rc=$rc"
